@@ -159,3 +159,16 @@ Definition sched_ok (c : sched_case) : bool :=
                        (proj (fst tc) (combine (map fst (sd_sched c)) (map (fun o => fst (fst o)) (sd_obs c)))))
           (sd_trees c)
   && forallb (fun b => b) (sd_errno c).
+
+(* hook-call case on an AVX machine: ymm0..15 when the stub calls the C wrapper and when it returns, while a
+   libc stand-in reached from the hook overwrites every vector register and ends with vzeroupper *)
+Record hook_ymm_case := { hy_hook : string; hy_before : list yreg; hy_after : list yreg }.
+Definition ones := 18446744073709551615.
+Definition hook_call_ymm (avx : bool) (f : string) (x : yfile) : yfile :=
+  let clobber : yfile := fun _ => ((ones, ones), (0, 0)) in
+  if xmm_leaf f then x
+  else if xmm_wrapped f then arch_roundtrip_now avx x (fun _ => 0) clobber
+  else clobber.
+Definition hook_ymm_agrees (c : hook_ymm_case) : bool :=
+  list_eqb yreg_eqb (firstn 8 (ylist (hook_call_ymm true (hy_hook c) (yof (hy_before c))))) (firstn 8 (hy_after c)).
+Definition hook_ymm_ok (c : hook_ymm_case) : bool := ok_ymm true (hy_before c) (hy_after c).
